@@ -400,6 +400,48 @@ def wide_and_strings(ctx, enc, dec, B, D):
             ctx.violate('string/rwritten-exception:%s' % type(e).__name__, 'decoder raised %r' % (e,), dict(spec, hex=msg.bytes.hex()), exc=e)
 
 
+def uncompressible(ctx, enc, dec):
+    """subsets whose delayed replication counts (or bitmaps) differ cannot be stored compressed: asking for it is either
+    refused or - if something is produced - decodes to the same values as the uncompressed encoding"""
+    rng = ctx.rng
+    B, D = cases.tables(33)
+    shapes = [[1001, 101000, 31001, 12001, 2001], [102000, 31001, 12001, 1001, 12004],
+              [12001, 4024, 5001, 222000, 101003, 31031, 101000, 31001, 33007]]
+    for q in range(6 if ctx.quick else 60):
+        if not ctx.mine(q):
+            continue
+        ids = shapes[q % len(shapes)]
+        for attempt in range(6):
+            try:
+                msg = R.build_message(ids, B, D, R.Policy(rng), rng.choice([2, 3]), False, 4)
+            except R.Unsupported:
+                continue
+            if len(set(tuple(s.labels) for s in msg.subsets)) > 1 or len(set(tuple(sorted(s.links.items())) for s in msg.subsets)) > 1:
+                break
+        else:
+            continue
+        ctx.count('uncompressible_cases')
+        spec = dict(part='uncompressible', ids=ids, nsub=msg.nsub, hex=msg.bytes.hex())
+        ctx.evaluated(('uncompressible', msg.bytes.hex()), True)
+        fjc = R.flat_json(R.Message(**dict(msg.__dict__, compressed=True)))
+        try:
+            bc = enc.process(json.dumps(fjc)).serialized_bytes
+        except Exception as e:
+            ctx.count('uncompressible_refused')
+            ctx.add('uncompressible_refusals', type(e).__name__)
+            continue
+        try:
+            sc = snapshot(dec.process(bc))
+            su = snapshot(dec.process(msg.bytes))
+        except Exception as e:
+            ctx.count('uncompressible_output_undecodable')
+            continue
+        if [x[:2] for x in sc] != [x[:2] for x in su]:
+            ctx.violate('transparency/structure-differs-between-subsets-accepted',
+                        'subsets with different replication counts / bitmaps were accepted for compressed encoding and decode to '
+                        'other values than the same subsets stored uncompressed', spec)
+
+
 def run(ctx):
     from pybufrkit.decoder import Decoder
     from pybufrkit.encoder import Encoder
@@ -407,6 +449,7 @@ def run(ctx):
     B, D = cases.tables(33)
     wide_and_strings(ctx, enc, dec, B, D)
     transparency(ctx, enc, dec)
+    uncompressible(ctx, enc, dec)
     small_scope(ctx, enc, dec, B, D)
 
 
